@@ -45,6 +45,25 @@ def walk(program, view, fn, _depth=0):
                 for m in walk(program, view, r[1], _depth + 1):
                     yield m
 
+def sum_terms(node):
+    """sorted additive terms of an expression built with `+`, `-` and increment_time(a, b) (= a + b in both the float and the exact node): the order of
+    the operands is immaterial"""
+    if isinstance(node, str):
+        node = ast.parse(node, mode="eval").body
+
+    def rec(n, sign):
+        if isinstance(n, ast.Call) and call_name(n) == "increment_time" and len(n.args) == 2 and not n.keywords:
+            return rec(n.args[0], sign) + rec(n.args[1], sign)
+        if isinstance(n, ast.BinOp) and isinstance(n.op, ast.Add):
+            return rec(n.left, sign) + rec(n.right, sign)
+        if isinstance(n, ast.BinOp) and isinstance(n.op, ast.Sub):
+            return rec(n.left, sign) + rec(n.right, -sign)
+        if isinstance(n, ast.UnaryOp) and isinstance(n.op, ast.USub):
+            return rec(n.operand, -sign)
+        return [("-" if sign < 0 else "") + unparse(n).replace(" ", "")]
+    return sorted(rec(node, 1))
+
+
 class _Subst(ast.NodeTransformer):
     def __init__(self, mapping):
         self.mapping = mapping
